@@ -6,6 +6,17 @@
 //   xz  <mode> <dictspec> <rowshex> [...]        rows are compressed here (zlib, optional PNG-Up predictor),
 //                                                /Filter (+ /DecodeParms) are added to the dictionary
 //
+//   vw  <steps> <prehex> <sufhex> <tab|xs|xz case as above>
+//        the same case on a RESTRICTED VIEW: the bytes the parser is to see (tab: <hex>; xs: <hex>; xz: the
+//        compressed content) are the WINDOW; <prehex> ++ window ++ <sufhex> is ONE allocation and <steps>
+//        (comma-separated, each applied to the result of the previous one) restrict it to the window:
+//          R<start>:<size>  RestrictView::new(start, size)      F<start>  RestrictViewFrom::new(start)
+//        <size> is a number, or `n` / `n+<k>` with n = the window's length (used by xz, where only the
+//        harness knows the compressed length).  The harness checks that the view it obtained shows
+//        exactly the window (`view-mismatch` otherwise; `view-error` if a step is refused); the parser then
+//        runs on the view exactly as on a plain buffer: <pos>, every span, cursor and entry offset in the
+//        output are cursors of the view.
+//
 // dictspec (no blanks):  D(key=val,...)   val := atom | A(atom,...)
 //                        atom := i<int> | n<name> | d<tag> (a dictionary) | z (null) | o (some other object)
 // The stream object is built through the crate's public constructors (DictT::new, ArrayT::new,
@@ -15,6 +26,7 @@ use std::io::Write;
 use std::rc::Rc;
 
 use parsley_rust::pcore::parsebuffer::{LocatedVal, ParseBuffer, ParseBufferT, ParsleyParser};
+use parsley_rust::pcore::transforms::{BufferTransformT, RestrictView, RestrictViewFrom};
 use parsley_rust::pdf_lib::pdf_file::XrefSectP;
 use parsley_rust::pdf_lib::pdf_obj::{ArrayT, DictKey, DictT, PDFObjT, StreamT};
 use parsley_rust::pdf_lib::pdf_prim::{IntegerT, NameT, StreamContentT};
@@ -192,9 +204,64 @@ fn mk_stream(m: BTreeMap<DictKey, Rc<LocatedVal<PDFObjT>>>, content: &[u8]) -> S
     StreamT::new(dict, LocatedVal::new(sc, 0, content.len()))
 }
 
+// ---- restricted views ----------------------------------------------------------------------
+
+// (steps, bytes in front of the window, bytes behind it)
+type ViewSpec<'a> = Option<(&'a str, Vec<u8>, Vec<u8>)>;
+
+fn size_term(t: &str, n: usize) -> Option<usize> {
+    if t == "n" {
+        Some(n)
+    } else if let Some(k) = t.strip_prefix("n+") {
+        k.parse::<usize>().ok().and_then(|k| k.checked_add(n))
+    } else {
+        t.parse::<usize>().ok()
+    }
+}
+
+// the buffer the parser under test is given: a plain ParseBuffer over `win`, or the view selected by
+// the steps in the allocation pre ++ win ++ suf
+fn make_buffer(vs: &ViewSpec, win: Vec<u8>) -> Result<ParseBuffer, String> {
+    let (steps, pre, suf) = match vs {
+        None => return Ok(ParseBuffer::new(win)),
+        Some(v) => v,
+    };
+    let mut all = pre.clone();
+    all.extend_from_slice(&win);
+    all.extend_from_slice(suf);
+    let mut pb = ParseBuffer::new(all);
+    for st in steps.split(',') {
+        let r = if let Some(t) = st.strip_prefix('R') {
+            let p: Vec<&str> = t.split(':').collect();
+            if p.len() != 2 {
+                return Err("bad-case".to_string())
+            }
+            match (p[0].parse::<usize>(), size_term(p[1], win.len())) {
+                (Ok(a), Some(b)) => RestrictView::new(a, b).transform(&pb),
+                _ => return Err("bad-case".to_string()),
+            }
+        } else if let Some(t) = st.strip_prefix('F') {
+            match t.parse::<usize>() {
+                Ok(a) => RestrictViewFrom::new(a).transform(&pb),
+                _ => return Err("bad-case".to_string()),
+            }
+        } else {
+            return Err("bad-case".to_string())
+        };
+        pb = match r {
+            Ok(v) => v,
+            Err(_) => return Err("view-error".to_string()),
+        };
+    }
+    if pb.get_cursor() != 0 || pb.size() != win.len() || pb.buf() != &win[..] {
+        return Err("view-mismatch".to_string())
+    }
+    Ok(pb)
+}
+
 // ---- cases ---------------------------------------------------------------------------------
 
-fn run_tab(w: &[&str]) -> String {
+fn run_tab(w: &[&str], vs: &ViewSpec) -> String {
     if w.len() < 3 {
         return "bad-case".to_string()
     }
@@ -203,7 +270,10 @@ fn run_tab(w: &[&str]) -> String {
         Ok(p) => p,
         Err(_) => return "bad-case".to_string(),
     };
-    let mut pb = ParseBuffer::new(buf);
+    let mut pb = match make_buffer(vs, buf) {
+        Ok(pb) => pb,
+        Err(e) => return e,
+    };
     if pb.set_cursor(pos).is_err() {
         return "bad-case".to_string()
     }
@@ -232,7 +302,7 @@ fn run_tab(w: &[&str]) -> String {
     }
 }
 
-fn run_xs(w: &[&str]) -> String {
+fn run_xs(w: &[&str], vs: &ViewSpec) -> String {
     if w.len() < 5 {
         return "bad-case".to_string()
     }
@@ -247,7 +317,10 @@ fn run_xs(w: &[&str]) -> String {
         Err(_) => return "bad-case".to_string(),
     };
     let stream = mk_stream(m, &content);
-    let mut pb = ParseBuffer::new(content);
+    let mut pb = match make_buffer(vs, content) {
+        Ok(pb) => pb,
+        Err(e) => return e,
+    };
     if pb.set_cursor(pos).is_err() {
         return "bad-case".to_string()
     }
@@ -260,7 +333,7 @@ fn run_xs(w: &[&str]) -> String {
 
 // mode = <p><l>: p in {0: no DecodeParms, 1: /Predictor 1, u: PNG Up (/Predictor 12 /Columns = row width)},
 //                l in {0: stored blocks, 6: default compression}
-fn run_xz(w: &[&str]) -> String {
+fn run_xz(w: &[&str], vs: &ViewSpec) -> String {
     if w.len() < 4 || w[1].len() != 2 {
         return "bad-case".to_string()
     }
@@ -322,7 +395,10 @@ fn run_xz(w: &[&str]) -> String {
         }
     }
     let stream = mk_stream(m, &content);
-    let mut pb = ParseBuffer::new(content);
+    let mut pb = match make_buffer(vs, content) {
+        Ok(pb) => pb,
+        Err(e) => return e,
+    };
     let mut p = XrefStreamP::new(false, &stream);
     match p.parse(&mut pb) {
         Ok(v) => format!("ok {} ents={}", v.end(), show_ents(v.val().ents())),
@@ -335,10 +411,18 @@ pub fn run(line: &str) -> String {
     if w.is_empty() {
         return "bad-case".to_string()
     }
+    let (w, vs): (&[&str], ViewSpec) = if w[0] == "vw" {
+        if w.len() < 5 {
+            return "bad-case".to_string()
+        }
+        (&w[4 ..], Some((w[1], unhex(w[2]), unhex(w[3]))))
+    } else {
+        (&w[..], None)
+    };
     match w[0] {
-        "tab" => run_tab(&w),
-        "xs" => run_xs(&w),
-        "xz" => run_xz(&w),
+        "tab" => run_tab(w, &vs),
+        "xs" => run_xs(w, &vs),
+        "xz" => run_xz(w, &vs),
         _ => "bad-case".to_string(),
     }
 }
